@@ -34,7 +34,7 @@ class UserFunction:
     def __init__(self, fun, defaults={}, args={}):
         if isinstance(fun, (UserFunction, DomainUserFunction)):
             self.fun = fun.fun
-            self.defaults = fun.defaults
+            self.defaults = dict(fun.defaults)
             self.args = fun.args
         else:
             self._transform_to_user_function(fun, defaults, args)
